@@ -225,7 +225,24 @@ def run(repo: Repo, chk: Check, thorough: bool = False) -> None:
            and repo.enclosing_func(n) is hd]
     chk.ob('R02.3', f'{SYS}.handleDuplicate :: the new definition takes the plain name', bool(fin),
            'self.allobjects[fullName] = obj' if fin else 'the new object is not registered under the contested name', hd.loc)
-    chk.require('R02.3', 11)
+    # a superseded definition stays registered but is no member of its parent's contents: the re-keying routines (which all walk
+    # `contents`) only reach it if its parent keeps it in a collection of its own and every one of them walks that collection too
+    prevs = {norm(c.args[0]) for c in calls_in(hd) if call_name(c) == 'readd' and c.args}
+    keep = [c for c in calls_in(hd) if call_name(c) in ('append', 'add') and c.args and norm(c.args[0]) in prevs and
+            isinstance(c.func, ast.Attribute) and isinstance(c.func.value, ast.Attribute)]
+    coll = keep[0].func.value.attr if keep else None   # type: ignore[attr-defined]
+    chk.ob('R02.3', f'{SYS}.handleDuplicate :: the superseded object stays attached to its parent', coll is not None,
+           f'kept in <parent>.{coll}' if coll else
+           'the superseded object is registered under `name N` but recorded nowhere on its parent: when the parent is moved (re-export) or removed, '
+           'its registry key is not updated - it stays registered under a qualified name it no longer has', hd.loc)
+    if coll:
+        for q in (f'{SYS}._remove', f'{SYS}.handleDuplicate.readd', f'{DOC}._handle_reparenting_pre', f'{DOC}._handle_reparenting_post'):
+            f = repo.func(q)
+            walks = any(isinstance(n, ast.Attribute) and n.attr == coll for n in f.walk())
+            chk.ob('R02.3', f'{q} :: also walks the superseded members ({coll})', walks,
+                   f'iterates contents and {coll}' if walks else
+                   f'{f.name} walks `contents` only: superseded members (kept in {coll}) keep their old registry key', f.loc)
+    chk.require('R02.3', 12)
 
     # ------------------------------------------------------------------ R02.4 kind by place
     fs = repo.func(f'{M}.Function.setup')
